@@ -618,6 +618,30 @@ def env_checks(c, im):
                     bad.append("ImportStatement failed on a statement of an import block")
         if "".join(b["text"] for b in s["blocks"]) != s["text"]:
             bad.append("block texts do not concatenate to the input text")
+    for imps, text in im.get("renders") or []:
+        if text != "" and not text.endswith("\n"):
+            bad.append("a non-empty rendering of an import set does not end with a newline")
+        if (text == "") != (len(imps) == 0):
+            bad.append("rendering is empty for a non-empty import set (or the converse)")
+    if c["kind"] == "tidy" and len(snaps) >= 2:
+        # oracle_compositional (C03_reformat_fixed_point_open): the splitter re-finds, in the text the first pass
+        # printed, the same sequence of non-import texts and import sets
+        def seq(blocks, printed):
+            out = []
+            for b in blocks:
+                if b["k"] == "I":
+                    out.append(("I", tuple(sorted(map(tuple, b["imports"])))))
+                else:
+                    tx = b["text"] if b["out"] is None else b["out"]
+                    if not tx:
+                        continue
+                    if out and out[-1][0] == "O":
+                        out[-1] = ("O", out[-1][1] + tx)
+                    else:
+                        out.append(("O", tx))
+            return out
+        if seq(snaps[0]["blocks"], True) != seq(snaps[1]["blocks"], False):
+            bad.append("the second decomposition does not re-find the blocks the first pass printed")
     if im.get("import_blocks_alias_order") is False:
         bad.append("import_blocks is not the import blocks of blocks in order")
     if c["kind"] == "tidy" and len(snaps) >= 2:
